@@ -124,6 +124,26 @@ add('C30', 'model_checking',
     'TLA+ spec Cache.tla (+CacheEval): TLC checks that the two-layer machine of utils/cache (memory layer, sqlite layer, lazily created namespaces) answers every read as the single-map rule (latest unexpired write of that namespace+key, else nothing); state-graph paths and TLC-evaluated random histories are replayed on the real package with a private sqlite file and the real clock',
     'All histories of <=4/5 writes (TTL past/near/far), reads, trims, clears and clock ticks over 2 namespaces x 2 keys x 2 values are explored by TLC (Agree, NoForeignNoStale, SqlIsMap); every state of the <=3/4-operation graph plus random histories are replayed through cache.Read/Write/Trim/Clear with values of 6 Go types, near TTL = now+5 s and Tick = sleeping past it; every read is compared with the specification.',
     'reads closer than 0.4 s to an expiry second are not judged (timing slop, Infra if >20%); which layer answered is not observable', 'DESIGN §6 C30')
+add('C09', 'model_checking',
+    'TLA+ spec Lexer.tla (family quote): TLC checks the transcribed lexer (preParser, parseStatement, parseExpression, parseString, parseStringInfix with escape flag and parenthesis depth) against the declarative value of a literal for every string up to the bound under five encoders and two positions, and exports the table; every literal is evaluated by the real interpreter and compared',
+    'All strings of <=3 characters over 14 symbols (thorough: 21 symbols, and <=4 over 8) x {single quote, double quote minimal / \\s\\t\\r\\n / backslash-everything, %(..)} x {statement argument, assigned expression} are enumerated by TLC with the invariant operational lexer = declarative value = s; seeded random strings up to 200 characters go through the same specification; each text runs in-process.',
+    '$ and ~ are escaped/excluded (no expansions); ANSI {CONST} expansion inside %( ) not exercised', 'DESIGN §6 C09')
+add('C10', 'model_checking',
+    'TLA+ spec Lexer.tla (family cmdline): escape.CommandLine transcribed as its ordered replacements, ParseBlock/preParser/parseStatement transcribed over every character class; TLC checks escape rule, Unescape.Escape = id and lexer round trip for every argv without an unprotected pattern (each pattern shown to break the round trip in the model), exports the table; every argv is run through the real escaper + block/statement parser, the interpreter, esccli, and a sample through the real `murex --execute` binary',
+    'argv = plain command + all 1-2 character arguments over printable ASCII/control characters, 1-2 (thorough 1-3) arguments over a 33-symbol class alphabet, seeded random argv of up to 6 arguments; expected result is the argv itself; routes parse / run / esccli / bin are judged independently.',
+    'argvToCmdLineStr reproduced by its two calls (package main), tied to main.go by the binary sample; lines mis-read as other commands are judged from the parse result and never executed; no NUL arguments', 'DESIGN §6 C10')
+add('C08', 'model_checking',
+    'TLA+ spec Lexer.tla (family vars): the $name / @name branches of parseStatement with getVar/CrLfTrimString and canHaveZeroLenStr transcribed; TLC checks for every value/array up to the bound and eight statement forms that the parameters are in the set the property allows (one statement, value minus at most one line ending, one argument per element) and exports the table; each row runs in the real interpreter with variables set through the Go API',
+    'Scalar values: every string of <=3 characters over an 18-symbol hostile alphabet; arrays of <=2 (3) single-line elements incl. empty; seeded random values up to 200 characters; observed by a harness builtin, a function $PARAMS, `out`, and (sample) an external argv echo.',
+    'variables of type str / json set with Variables.Set; commands that deliberately do not expand $name (set, export, foreach ...) excluded', 'DESIGN §6 C08')
+add('C36', 'exploration',
+    'TLA+ spec LexerLit.tla: generator of JSON trees, printer in four JSON layouts, expected value = the tree; table exported by TLC; every text is decoded by encoding/json (must equal the tree) and evaluated as a murex %[ ]/%{ } literal in expression and statement position',
+    'Trees over 8 literals, 8 strings, 4 keys, <=2 members, second (thorough third) level over reduced subtrees, x {compact, spaced, pretty, line break after colon}; seeded random documents of depth <=4 printed by the same specification.',
+    'generator + identity (no transition system); numbers exactly representable in float64; strings without backslash $ ~ ( )', 'DESIGN §6 C36')
+add('C34', 'exploration',
+    'TLA+ spec LexerSafe.tla: abstract command lines (safe/unsafe commands, 11 argument forms, assignment, 8 flow tokens) printed by TLC together with the structural predicate MustNotRun; real parser.Parse verdict compared, the real ParseBlock (recursive) confirms what each line contains',
+    'All lines of 2 segments over the full syntax and 3 segments over a reduced one (thorough: wider); violation = must-not-run, confirmed by ParseBlock, and Unsafe=false; over-caution is not judged.',
+    'the tokeniser is not transcribed (exploration); command words confirmed against parser.GetSafeCmds() of the tree under test', 'DESIGN §6 C34')
 
 
 def main():
